@@ -399,18 +399,42 @@ def mkOut (c : Cfg) (rids lids : List Nat) (r l : Bytes × List Nat) : UnitOut :
     debugLoc := if legacy then l.1 else [],
     debugLoclists := if legacy then [] else l.1 }
 
-/-- The list-related part of `Unit::write` into fresh `Sections` (the unit is the first one:
-`uoff = 0`): version check of the unit header, `have_base_address`, the range list table, the
-location list table (DIE offsets are known by then), and finally the root DIE's `DW_AT_low_pc`
-(written with `write_address`, which can still fail). -/
-def writeUnit (m : Mode) (u : UnitIn) : Out UnitOut :=
+/-- where a unit is written: its offset in `.debug_info` and the current lengths of the range-list
+and location-list sections its version selects (all 0 for the first unit of fresh `Sections`) -/
+structure Pos where
+  uoff : Nat := 0
+  rngStart : Nat := 0
+  locStart : Nat := 0
+  deriving Repr, DecidableEq
+
+/-- The list-related part of `Unit::write`: version check of the unit header,
+`have_base_address`, the range list table, the location list table (DIE offsets are known by
+then), and finally the root DIE's `DW_AT_low_pc` (written with `write_address`, which can still
+fail). The section fields of the result are the bytes this unit appends. -/
+def writeUnitAt (m : Mode) (u : UnitIn) (p : Pos) : Out UnitOut :=
   if ¬ (2 ≤ u.cfg.version ∧ u.cfg.version ≤ 5) then .err .wUnsupportedVersion else do
   let hb := haveBaseAddress u.lowPc
   let ra := addAll [] u.rng
   let la := addAll [] u.loc
-  let r ← writeTable m .rng u.cfg (unitEOff u) 0 hb 0 ra.1
-  let l ← writeTable m .loc u.cfg (unitEOff u) 0 hb 0 la.1
+  let r ← writeTable m .rng u.cfg (unitEOff u) p.uoff hb p.rngStart ra.1
+  let l ← writeTable m .loc u.cfg (unitEOff u) p.uoff hb p.locStart la.1
   let _ ← writeLowPc u.cfg u.lowPc
   pure (mkOut u.cfg ra.2 la.2 r l)
+
+/-- a unit written first into fresh `Sections` -/
+def writeUnit (m : Mode) (u : UnitIn) : Out UnitOut := writeUnitAt m u {}
+
+/-- `UnitTable::write` for two units: the second unit's tables follow the first unit's in the
+sections its version selects; `uoffB` is the second unit's offset in `.debug_info`. The result
+is the two units' ids/offsets and the four sections. -/
+def writeUnits2 (m : Mode) (a b : UnitIn) (uoffB : Nat) : Out (UnitOut × UnitOut) := do
+  let oa ← writeUnitAt m a {}
+  let legacy := decide (b.cfg.version ≤ 4)
+  let pb : Pos := {
+    uoff := uoffB,
+    rngStart := if legacy then oa.debugRanges.length else oa.debugRnglists.length,
+    locStart := if legacy then oa.debugLoc.length else oa.debugLoclists.length }
+  let ob ← writeUnitAt m b pb
+  pure (oa, ob)
 
 end Gimli.WLists
